@@ -45,9 +45,11 @@ Fixpoint api_del (ks : list bytes) (now : Z) (d : db) : Z * db :=
   | k :: r =>
       match write_key k None now d with
       | (None, d1) => api_del r now d1
-      | (Some _, d1) => let '(c, d2) := api_del r now (del_meta k d1) in (c + 1, d2)
+      | (Some _, d1) => let '(c, d2) := api_del r now (notify (PDel k) (del_meta k d1)) in (c + 1, d2)
       end
   end.
+(* Clear(): the store is emptied, then the record is emitted *)
+Definition api_clear (d : db) : db := notify PClear (clear d).
 
 Fixpoint api_exists (ks : list bytes) (now : Z) (d : db) : Z * db :=
   match ks with
@@ -282,7 +284,7 @@ Definition api_getset (k v : bytes) (now : Z) (d : db) : res (option bytes) :=
       | None => Panic d1
       | Some s =>
           let d2 := set_val_of m (VStr (str_set v s)) d1 in
-          Ok (if snil s then None else Some (sv s)) (notify (PSet k v false 0) (signal k m d2))
+          Ok (if snil s then None else Some (sv s)) (notify (PSet k v true 0) (signal k m d2))
       end
   end.
 
@@ -347,7 +349,7 @@ Definition api_incr_gen (k : bytes) (delta : Z) (decr swallow : bool) (now : Z) 
           | None => if swallow then Ok (Some 0) d1 else Ok None d1
           | Some (n, s') =>
               let d2 := set_val_of m (VStr s') d1 in
-              Ok (Some n) (notify (PSet k (format_int n) false 0) (signal k m d2))
+              Ok (Some n) (notify (PSet k (format_int n) true 0) (signal k m d2))
           end
       end
   end.
@@ -364,7 +366,7 @@ Definition api_incrbyfloat (k : bytes) (delta : score) (now : Z) (d : db) : res 
           | FRerr => Ok None d1
           | FRok r s' =>
               let d2 := set_val_of m (VStr s') d1 in
-              Ok (Some r) (notify (PSet k (format_score r) false 0) (signal k m d2))
+              Ok (Some r) (notify (PSet k (format_score r) true 0) (signal k m d2))
           end
       end
   end.
@@ -378,7 +380,7 @@ Definition api_setbit (k : bytes) (offset : Z) (bit : bool) (now : Z) (d : db) :
       | Some s =>
           let '(old, s') := str_setbit offset bit s in
           let d2 := set_val_of m (VStr s') d1 in
-          Ok old (notify (PSet k (sv s') false 0) (signal k m d2))
+          Ok old (notify (PSet k (sv s') true 0) (signal k m d2))
       end
   end.
 Definition api_getbit (k : bytes) (offset now : Z) (d : db) : res Z :=
@@ -404,7 +406,7 @@ Definition api_append (k v : bytes) (now : Z) (d : db) : res Z :=
       | Some s =>
           let '(n, s') := str_append v s in
           let d2 := set_val_of m (VStr s') d1 in
-          Ok n (notify (PSet k (sv s') false 0) (signal k m d2))
+          Ok n (notify (PSet k (sv s') true 0) (signal k m d2))
       end
   end.
 (* GetRange: the handler writes string(v), so nil and empty coincide *)
@@ -431,7 +433,7 @@ Definition api_setrange (k : bytes) (offset : Z) (v : bytes) (now : Z) (d : db) 
       | Some s =>
           let '(n, s') := str_setrange offset v s in
           let d2 := set_val_of m (VStr s') d1 in
-          Ok n (notify (PSet k (sv s') false 0) (signal k m d2))
+          Ok n (notify (PSet k (sv s') true 0) (signal k m d2))
       end
   end.
 
